@@ -14,12 +14,19 @@ func main() {
 	os.Exit(mainAux())
 }
 
+// libList collects every -l option in command line order
+type libList []string
+
+func (l *libList) String() string     { return fmt.Sprint([]string(*l)) }
+func (l *libList) Set(v string) error { *l = append(*l, v); return nil }
+
 func mainAux() int {
-	var opt_e, opt_l, opt_p string
+	var opt_e, opt_p string
+	var opt_l libList
 	var opt_i, opt_v, opt_dt, opt_dc bool
 	var opt_m int
 	flag.StringVar(&opt_e, "e", "", "")
-	flag.StringVar(&opt_l, "l", "", "")
+	flag.Var(&opt_l, "l", "")
 	flag.StringVar(&opt_p, "p", "", "")
 	flag.IntVar(&opt_m, "mx", 0, "")
 	flag.BoolVar(&opt_i, "i", false, "")
@@ -64,10 +71,11 @@ Available options are:
 		fmt.Println(lua.PackageCopyRight)
 	}
 
-	if len(opt_l) > 0 {
-		// -l name: require the library, as the usage text says (lua.c dolibrary)
-		if err := L.CallByParam(lua.P{Fn: L.GetGlobal("require"), NRet: 0, Protect: true}, lua.LString(opt_l)); err != nil {
+	// -l name (repeatable): require each library in order; a failing one stops the run (lua.c runargs)
+	for _, name := range opt_l {
+		if err := L.CallByParam(lua.P{Fn: L.GetGlobal("require"), NRet: 0, Protect: true}, lua.LString(name)); err != nil {
 			fmt.Println(err.Error())
+			return 1
 		}
 	}
 
